@@ -4,7 +4,7 @@
   "well nested; `Good` — or, after an `invert()`, free of ENTER/EXIT marks —;
   every buffer holds balanced content".
 -/
-import Genshi.Lemmas.TfBufBal
+import Genshi.Lemmas.TfFilter
 namespace Genshi.Tf
 
 /-- injected content is balanced: literal event streams must be, strings are, buffers are by
@@ -19,9 +19,10 @@ theorem content_bal {b : Bufs} (hb : BufsOk b) {c : Content} (h : c.Ok) : Bal (e
   | evs s => simpa [content, evsOf_map_ev, Content.Ok] using h
   | buf id => exact hb id
 
-/-- operations admitted on a `Good` marking: everything except `filter(f)` -/
+/-- operations admitted on a `Good` marking: all of them (injected event streams balanced;
+    the filters of `filter(f)` in the model keep balanced input balanced: `fok_id`,
+    `fok_dropComments`) -/
 def Op.OkGood : Op → Prop
-  | .filter _ => False
   | .replace c => c.Ok
   | .before c => c.Ok
   | .after c => c.Ok
@@ -172,7 +173,14 @@ theorem applyOp_good (b : Bufs) (op : Op) {s s' : MStream} {b' : Bufs}
     obtain ⟨rfl, rfl⟩ := h
     exact same (by unfold WellNested substitute; rw [map_balance (substEv_effPres p r n)]; exact hwn)
       (map_good (substEv_effPres p r n) hg)
-  | filter d => exact absurd hok (by simp [Op.OkGood])
+  | filter d =>
+    simp only [applyOp, Option.some.injEq, Prod.mk.injEq] at h
+    obtain ⟨rfl, rfl⟩ := h
+    have hf : FOk (if d = true then dropComments else id) := by
+      cases d
+      · simpa using fok_id
+      · simpa using fok_dropComments
+    exact same (by unfold WellNested filterSel; rw [filter_balance hf hg]; exact hwn) (filter_good hf hg)
 
 theorem applyOp_dirty (b : Bufs) (op : Op) {s s' : MStream} {b' : Bufs}
     (hok : op.OkDirty) (inv : ChainInv false s b) (hsel : op.selOkAt s = true)
